@@ -577,43 +577,43 @@ Definition json_of_call (c : ccall) : json :=
 Definition call_of_json (j : json) : ccall :=
   if String.eqb (jfS "c" j) "sched" then CSched (jfS "id" j) (jfS "schedule" j) else CRemJ (jfS "id" j).
 
+(** The calls the model predicts for an operation of a location.  While nothing stored is
+    expired the gates of the operation (Gets of the location's property facts) and the purges
+    remove nothing, and the operation proper is one operation of the state: its calls are those
+    of CronHooks.v (calls_add / calls_Rem / calls_clear / calls_load; the reads call nothing).
+    For everything else - compound operations (events, enable/disable, ...), and whenever an
+    expired item is around, so that any Get on the way may purge it together with its
+    dependents - the prediction is [diff_calls]: what the calls must amount to, from the
+    states before and after. *)
 Definition model_calls (sy0 sy' : system) (o : json) (m : json) (now : Z) : list ccall :=
   let name := jfS "loc" o in
   let op := jfS "op" o in
   let refused := String.eqb (jfS "class" m) E_disabled || String.eqb (jfS "class" m) E_denied ||
                  String.eqb (jfS "class" m) E_capacity || String.eqb (jfS "class" m) E_noloc in
+  let is_add := String.eqb op "addfact" || String.eqb op "addrule" in
+  let is_rem := String.eqb op "remfact" || String.eqb op "remrule" in
   match sys_get sy0 name, sys_get sy' name with
   | Some l0, Some l1 =>
-      if refused then [] else
-      if String.eqb op "addfact" || String.eqb op "addrule" then
-        if jfB "ok" m then calls_add (jfB "persistent" o) false (l_state l1) (Ok (jfS "id" m)) else []
-      else if String.eqb op "remfact" || String.eqb op "remrule" then calls_rem (l_state l0) (jfS "id" o) now
-      else if String.eqb op "clear" then calls_clear (l_state l0) now
-      else if String.eqb op "reload" then (if jfB "ok" m then calls_load (jfB "persistent" o) (l_state l1) else [])
-      else []
+      let s0 := l_state l0 in
+      let s1 := l_state l1 in
+      let direct := (is_add || is_rem || String.eqb op "clear" || String.eqb op "reload") &&
+                    negb (any_expired s0 now) in
+      if direct then
+        if refused then [] else
+        if is_add then
+          if jfB "ok" m then calls_add (jfB "persistent" o) false s0 s1 (Ok (jfS "id" m)) else []
+        else if is_rem then calls_Rem s0 (jfS "id" o) now
+        else if String.eqb op "clear" then calls_clear s0
+        else (if jfB "ok" m then calls_load (jfB "persistent" o) (st_store s0) now s1 else [])
+      else
+        diff_calls (jfB "persistent" o) s0 s1
+                   (if is_add && jfB "ok" m then Some (jfS "id" m) else None)
+                   (String.eqb op "reload" && jfB "ok" m)
   | _, _ => []
   end.
 
 Definition same_calls (mc : list ccall) (obs : list json) : bool :=
   list_eqb json_eqb (canon_multiset (map json_of_call mc)) (canon_multiset (map jnorm obs)).
-
-(** D28: the operations on which the hooks are known to be bypassed. *)
-Definition d28_class (s0 s1 : state) (o : json) (m : json) : bool :=
-  let op := jfS "op" o in
-  let sched0 := scheduled_rules s0 in
-  if String.eqb op "addfact" || String.eqb op "addrule" then
-    (* overwrite of a scheduled rule by something unscheduled *)
-    match alookup (jfS "id" m) sched0, alookup (jfS "id" m) (scheduled_rules s1) with
-    | Some _, None => true
-    | _, _ => false
-    end
-  else if String.eqb op "remfact" || String.eqb op "remrule" || String.eqb op "enablerule" || String.eqb op "process" then
-    (* a scheduled rule other than the named one disappeared (cascade) *)
-    existsb (fun kv => negb (String.eqb (fst kv) (jfS "id" o)) &&
-                       match alookup (fst kv) (st_facts s1) with None => true | Some _ => false end) sched0
-  else if String.eqb op "clear" || String.eqb op "reload" then
-    match st_kind s0 with Linear => true | Indexed => false end
-  else false.
 
 Record acc := mkAcc {
   a_reg : list (string * registry);          (* C15: the cron registry per location, from the observed calls *)
@@ -747,22 +747,11 @@ Definition step_acc (a : acc) (o : json) : acc :=
               if agrees sy0 then (false, [])
               else if agrees (sys_nofail sy0) then (false, []) else (true, kf_of sy0 o)
             else (false, []) in
-      match r with
-      | None =>
-          (* model and implementation differ here: the observation is still judged against the
-             specification, from the model's state before the operation *)
-          let '(sy', m) := run_op sy0 o t in
-          let '(spec_bad, kfs) := judge sy' m false in
-          mkAcc (a_reg a) (a_sys a) (a_k a) (Some (a_k a, jfS "op" o, m))
-                (match a_spec a with
-                 | Some x => Some x
-                 | None => if spec_bad && match kfs with [] => true | _ => false end
-                           then Some (a_k a, jfS "op" o) else None
-                 end)
-                (if spec_bad then (kfs ++ a_kf a)%list else a_kf a) (a_feats a) (a_amb a) false
-      | Some (sy', m, amb) =>
-          let '(spec_bad, kfs) := judge sy' m amb in
-          (* C15: the registry kept by the cron service holds exactly the stored scheduled rules *)
+      (* C15: the registry kept by the cron service holds exactly the stored scheduled rules.  The registry
+         is kept from the OBSERVED calls; (bad?, registry after the operation).  (Finding D28 is repaired:
+         every path is judged, expiry included, and a registry that differs from the stored scheduled
+         rules is a plain failure of the specification.) *)
+      let cron_judge (sy' : system) (amb : bool) : bool * registry :=
           let name := jfS "loc" o in
           let reg0 := match alookup name (a_reg a) with Some r => r | None => [] end in
           let reg0' := if String.eqb (jfS "op" o) "reload" && negb (jfB "persistent" o) then [] else reg0 in
@@ -770,19 +759,37 @@ Definition step_acc (a : acc) (o : json) : acc :=
                       | Some (JArr oc) => fold_left apply_call (map call_of_json oc) reg0'
                       | _ => reg0'
                       end in
-          let '(cron_bad, cron_kfs) :=
-            match jget "cron" o, sys_get sy0 name, sys_get sy' name with
-            | Some _, Some l0, Some l1 =>
-                if amb || any_expired_l l0 t || negb (registry_exact reg0 (l_state l0)) then (false, [])
-                else if registry_exact reg1 (l_state l1) then (false, [])
-                else (true, if d28_class (l_state l0) (l_state l1) o m then ["D28"] else [])
-            | _, _, _ => (false, [])
-            end in
-          let unexplained := (spec_bad && match kfs with [] => true | _ => false end) ||
-                             (cron_bad && match cron_kfs with [] => true | _ => false end) in
-          let kfs := ((if spec_bad then kfs else []) ++ (if cron_bad then cron_kfs else []))%list in
+          match jget "cron" o, sys_get sy0 name, sys_get sy' name with
+          | Some _, Some l0, Some l1 =>
+              if amb || negb (registry_exact reg0 (l_state l0)) then (false, reg1)
+              else if registry_exact reg1 (l_state l1) then (false, reg1)
+              else (true, reg1)
+          | _, _, _ => (false, reg1)
+          end in
+      match r with
+      | None =>
+          (* model and implementation differ here: the observation is still judged against the
+             specification, from the model's state before the operation *)
+          let '(sy', m) := run_op sy0 o t in
+          let '(spec_bad, kfs) := judge sy' m false in
+          (* C15: when the answers agree (the difference is in the calls to the cron service) the model's
+             state after the operation is the state, and the registry is judged against it *)
+          let cron_bad := same_res m obs && fst (cron_judge sy' false) in
+          let unexplained := (spec_bad && match kfs with [] => true | _ => false end) || cron_bad in
+          mkAcc (a_reg a) (a_sys a) (a_k a) (Some (a_k a, jfS "op" o, m))
+                (match a_spec a with
+                 | Some x => Some x
+                 | None => if unexplained then Some (a_k a, jfS "op" o) else None
+                 end)
+                (if spec_bad then (kfs ++ a_kf a)%list else a_kf a) (a_feats a) (a_amb a) false
+      | Some (sy', m, amb) =>
+          let '(spec_bad, kfs) := judge sy' m amb in
+          let name := jfS "loc" o in
+          let '(cron_bad, reg1) := cron_judge sy' amb in
+          let unexplained := (spec_bad && match kfs with [] => true | _ => false end) || cron_bad in
+          let kfs := if spec_bad then kfs else [] in
           let spec_bad := spec_bad || cron_bad in
-          (* after a (known) divergence the registry is re-synchronised so that later operations are judged *)
+          (* after a divergence the registry is re-synchronised so that later operations are judged *)
           let reg1 := if cron_bad then match sys_get sy' name with
                                        | Some l1 => scheduled_rules (l_state l1)
                                        | None => reg1
@@ -829,7 +836,7 @@ Definition check_loc (c : json) : json :=
         ("model", match a_diff a with Some (_, _, m) => m | None => JNull end);
         ("spec_ok", JBool (match a_spec a, kf with None, [] => true | _, _ => false end));
         ("spec_why", JStr (match a_spec a with
-                           | Some (_, w) => String.append "observed behaviour fails the specification (index-free search, denotational query semantics, deleteWith closure, reload equivalence, failure reporting) at op " w
+                           | Some (_, w) => String.append "observed behaviour fails the specification (index-free search, denotational query semantics, deleteWith closure, reload equivalence, failure reporting, cron registry = stored scheduled rules) at op " w
                            | None => match kf with [] => "" | _ => "known finding" end
                            end));
         ("spec_at", match a_spec a with Some (k, _) => JNum k | None => JNull end);
